@@ -94,7 +94,10 @@ pub async fn dump(app: &Arc<AppShareData>) -> anyhow::Result<Value> {
                     t.insert(hexs(&k), json!(hexs(&v)));
                 }
             }
-            tables.insert(name.as_str().to_string(), Value::Object(t));
+            if !t.is_empty() {
+                // (an empty table is not observable through any served query)
+                tables.insert(name.as_str().to_string(), Value::Object(t));
+            }
         }
     }
     // ---- sequences (hook: SequenceDbManager has no query message)
